@@ -101,6 +101,9 @@ def _solve_part(part):
     solver_obs = classify(obs)
     discharge(solver_obs, timeout_s=timeout, jobs=_PART_CTX["jobs"], modes=("direct",))
     discharge([o for o in solver_obs if o.status != "unsat"], timeout_s=max(3, timeout / 2), jobs=_PART_CTX["jobs"], modes=("lin",))
+    if _PART_CTX.get("tier") == "thorough":
+        from .solve import cross_confirm
+        cross_confirm(solver_obs, jobs=_PART_CTX["jobs"])
     groups = {}
     for o in solver_obs:
         if o.status == "unsat" and o.hyps and o.kind not in ("lemma",):
@@ -132,7 +135,7 @@ def prove(chk, build, ground_sizes=(), replay=None, timeout=None, known_ok=None,
     t0 = time.time()
     if parts:
         from .framework import parallel_map, _pool_jobs
-        _PART_CTX.update(build=build, timeout=timeout, jobs=max(1, _pool_jobs() // min(len(parts), _pool_jobs())))
+        _PART_CTX.update(build=build, timeout=timeout, jobs=max(1, _pool_jobs() // min(len(parts), _pool_jobs())), tier=chk.tier)
         obs = []
         for res in parallel_map(_solve_part, parts):
             if res[0] == "error":
@@ -154,6 +157,9 @@ def prove(chk, build, ground_sizes=(), replay=None, timeout=None, known_ok=None,
         return []
     solver_obs = classify(obs)
     discharge(solver_obs, timeout_s=timeout)
+    if chk.tier == "thorough":
+        from .solve import cross_confirm
+        cross_confirm(solver_obs)
     # vacuity canaries: `False` under the same hypotheses must not be provable
     groups = {}
     for o in solver_obs:
@@ -236,6 +242,18 @@ def refute(chk, build, obs, ground_sizes, replay, t0, second_pass=None):
         if done:
             o.meta["refuted"] = True
             continue
+        if o.status == "sat" and not o.meta.get("abstracted") and callable(o.meta.get("case_from_model")) and isinstance(o.detail, dict) and replay:
+            # quantifier-free refutation whose model fixes the whole input: build the input and run the real code on it
+            try:
+                case = o.meta["case_from_model"](o.detail)
+                res = replay(case) if case is not None else None
+            except Exception as e:        # noqa: BLE001
+                case, res = None, None
+                chk.notes.append(f"model of {o.id} could not be replayed: {type(e).__name__}: {e}")
+            if res:
+                chk.violation(o.id, key, res, case, kind="ground-model", obligation=o.id, solver=f"quantifier-free model: {o.detail}")
+                o.meta["refuted"] = True
+                continue
         if o.status == "sat" and o.meta.get("abstracted"):
             # the query generalises the obligation (terms replaced by fresh symbols under proved hints): a model is only a candidate
             rest.append(o)
